@@ -114,6 +114,11 @@ def o_final_split(f, p, d, k):
         return None
     return orc
 
+class _Wrap:
+    """presents a bare factor list as the answer shape of pm_factorize ([ok value bytes]) to the oracle"""
+    def __init__(self, v):
+        self.kind = 'ok'; self.val = [Id('ok'), v, []]; self.raw = enc(v)
+
 def fac_case(rng, f, p, pusize, tag, nontrivial=True, script=()):
     seed = rng.getrandbits(64)
     return Case('pm_factorize', line('pm_factorize', f, p, pusize, seed, list(script)),
@@ -174,6 +179,8 @@ def structured(rng, p, maxdeg):
     f = red(f, p) if kind != 'lc-div-p' else f
     if rng.random() < 0.5: f = disguise(rng, f, p)
     return kind, f
+
+NEEDS_CLI = True
 
 def cases(rng, tier):
     th = tier == 'thorough'
@@ -272,4 +279,28 @@ def cases(rng, tier):
         out.append(Case('pm_poly_mod', line('pm_poly_mod', a, p), nontrivial=False, tag='poly_mod-edge'))
     for x, e, m in [(3, 5, 0), (3, 0, 0), (3, -4, 7), (-3, 5, 7), (3, 5, -7), (0, 0, 5), (2, 10, 1), (5, 1, 5)]:
         out.append(Case('pm_modpow', line('pm_modpow', x, e, m), nontrivial=False, tag='modpow-edge'))
+    # --- CLI glue: `rust-number-theory <config>` with to_find = factorization-mod-p. The binary is built with the hooks
+    # feature, so its generator starts from the fixed default state: the model replays that byte stream (lib.hook_stream).
+    # pusize is what main.rs derives: p when it fits a machine word, 0 otherwise.
+    import lib as _lib
+    stream = _lib.hook_stream(_lib.HOOK_DEFAULT_SEED, 6000)
+    def cmp_cli(ia, ma):
+        if ia.kind != 'ok' or ma.kind != 'ok' or ma.val[0] != 'ok':
+            return 'CLI %r vs model %r' % (ia.raw[:200], ma.raw[:200])
+        if ia.val == Id('cli_failed'): return 'the CLI exited with an error, model %r' % ma.raw[:200]
+        if enc(ia.val) != enc(ma.val[1]): return 'CLI printed %r, model (same draws) %r' % (ia.raw[:200], enc(ma.val[1])[:200])
+        if ma.val[3] is not False: return 'model ran out of the replayed default stream'
+        return None
+    cli = [([1, 0, 1], 5), ([1, 0, 1, 0], 5), ([2, 0, 0, 0, 0, 0, 1], 7), ([0, 0, 1, 0, 1], 3), ([1, 0, 0, 1], 2), ([-1, 0, 1], 18446744073709551629),
+           ([6, 11, 6, 1], 13), ([1, 1, 1, 1, 1], 11)]
+    for _ in range(8 if not th else 40):
+        q = rng.choice([2, 3, 5, 7, 11, 13, 101, 65537])
+        cli.append(([rng.randrange(-20, 21) for _ in range(rng.randrange(2, 7))] + [0] * rng.choice([0, 0, 1]), q))
+    for f, q in cli:
+        if deg(red(f, q)) < 0: continue
+        pus = q if fits_usize(q) else 0
+        out.append(Case('cli_factor_mod_p', line('cli_factor_mod_p', f, q), model=line('pm_factorize', f, q, pus, stream, Id('checked')), compare=cmp_cli,
+                        oracle=(lambda f=f, q=q: (lambda ia: None if ia.kind == 'ok' and ia.val != Id('cli_failed') and o_factorize(f, q)(_Wrap(ia.val)) is None
+                                                   else 'CLI factorization-mod-p of %s mod %s: %s' % (f, q, ia.raw[:120])))(),
+                        always_oracle=True, tag='cli'))
     return out
